@@ -569,7 +569,10 @@ def h_results(shape):
                 v = inp.real("v%d_%d" % (i, j), -10, 10)
                 if shape.get("kinds"):
                     # other kinds of values an observable may store: complex numbers, lists of numbers, counters
-                    v = {"complex": complex(0.5, -1.5), "list": [v, 2.0], "counter": {"01": 3, "10": 7}}[shape["kinds"][(i + j) % len(shape["kinds"])]]
+                    # ("cseq": a complex observable whose first values happen to be real, then complex, then purely imaginary)
+                    v = {"complex": complex(0.5, -1.5), "list": [v, 2.0], "counter": {"01": 3, "10": 7},
+                         "cseq": [complex(0.5, 0.0), 0.25, complex(0.3, 0.4), complex(0.0, -0.25)][j % 4],
+                         "clist": [complex(1.0, 0.0), complex(0.0, 1.0)] if j else [1.0, 0.0]}[shape["kinds"][(i + j) % len(shape["kinds"])]]
                 r._store_raw(uuid=u, tag=tag, time=t, value=v)
         try:
             r2 = Results.from_abstract_repr(r.to_abstract_repr())
@@ -593,6 +596,8 @@ def kernels(tier):
     ks.append(("results", dict(n_obs=3, tags=["energy", "occupation", "energy"], n_times=1)))
     ks.append(("results", dict(n_obs=2, tags=["occupation", "bitstrings"], n_times=2, kinds=["list", "counter"])))
     ks.append(("results", dict(n_obs=1, tags=["expectation"], n_times=2, kinds=["complex"])))
+    ks.append(("results", dict(n_obs=1, tags=["expectation"], n_times=4, kinds=["cseq"])))
+    ks.append(("results", dict(n_obs=2, tags=["expectation", "state"], n_times=2, kinds=["clist"])))
     ks.append(("config", dict(obs=["bitstrings"], times=[True])))
     ks.append(("config", dict(obs=["bitstrings", "occupation"], times=[False, True], default_times="sym", suffix=True)))
     ks.append(("config", dict(obs=["correlation", "energy", "variance"], times=[True, False, False], default_times="full", mod=True)))
